@@ -3,7 +3,7 @@
    real linker computed; each checker recomputes with the model (or evaluates
    the ECMA-262 specification side) and returns the indices of the cases that
    disagree. *)
-From V Require Import Common.Base C02.Graph C02.Order C02.SpecESM C02.Wrap C02.Resolve C02.DataUrl C02.SpecDataUrl C02.Emit C02.ResolveSpec C02.EvalOrder.
+From V Require Import Common.Base C02.Graph C02.Order C02.SpecESM C02.Wrap C02.Resolve C02.DataUrl C02.SpecDataUrl C02.Emit C02.ResolveSpec C02.EvalOrder C02.WrapGraph.
 
 Fixpoint mism_from {A} (f : A -> bool) (l : list A) (i : nat) : list nat :=
   match l with
@@ -78,6 +78,8 @@ Definition classify_ok (c : case) : bool :=
   | Some st =>
     forallb (fun p => let '(f, k, w) := p in
                let '(mk, mw) := cget st (zn f) in (ek_z mk =? k) && (wk_z mw =? w)) (o_kinds (snd c))
+    (* the side condition of wrap_exact / classified_mixed_order_is_native holds on every real graph *)
+    && targets_ok (fst c) (map zn (o_reach (snd c)))
   end.
 Definition check_classify := mismatches classify_ok.
 
@@ -279,9 +281,23 @@ Definition trace_eqb (a : option (list eevent)) (b : list (Z * Z)) : bool :=
   | Some l => list_eqb (fun x y => (fst x =? fst y) && (snd x =? snd y)) (map ev_code l) b
   | None => false
   end.
-(* (graph with the real wrap kinds, entry, start/end events of the native run, of the bundle) *)
-Definition evalorder_ok (c : egraph * Z * list (Z * Z) * list (Z * Z)) : bool :=
-  let '(g, entry, nat_obs, bun_obs) := c in
+(* the graph the model derives from the import records and its own wrap flags, against the abstract
+   graph of the generator carrying the real wrap kinds (e_esm plays no part in either trace) *)
+Definition nlist_eqb (a b : list nat) : bool := list_eqb Nat.eqb a b.
+Definition emod_agrees (a b : emod) : bool :=
+  Bool.eqb (e_silent a) (e_silent b) && nlist_eqb (e_static a) (e_static b) && nlist_eqb (e_requires a) (e_requires b)
+  && nlist_eqb (e_dyn a) (e_dyn b) && Bool.eqb (e_wrapped a) (e_wrapped b).
+Definition derived_graph_ok (lc : case) (eg : egraph) : bool :=
+  let '(g, o) := lc in
+  let order := map zn (o_reach o) in
+  match model_kinds lc with
+  | None => false
+  | Some st => targets_ok g order && list_eqb emod_agrees (egraph_of g order st) eg
+  end.
+(* (link case, whether module paths determine source indices, graph with the real wrap kinds, entry,
+   start/end events of the native run, of the bundle) *)
+Definition evalorder_ok (c : case * bool * egraph * Z * list (Z * Z) * list (Z * Z)) : bool :=
+  let '(lc, cmp, g, entry, nat_obs, bun_obs) := c in
   trace_eqb (native_trace g (zn entry)) nat_obs && trace_eqb (bundle_trace g (zn entry)) bun_obs
-  && wrap_consistent g.
+  && wrap_consistent g && (negb cmp || derived_graph_ok lc g).
 Definition check_evalorder := mismatches evalorder_ok.
